@@ -235,6 +235,13 @@ pub fn gen_cfg(id: &str, tier: Tier, variant: u64) -> GenCfg {
         }
         // a fresh allocation made by make_mut, or an object whose partners were
         // unwrapped, has no recorded adoption either
+        // records that were purged by a peer's death (also after an elided unadopt)
+        // leave the survivor without recorded adoptions too
+        "C14" if variant % 4 == 1 => {
+            let mut g = GenCfg::new(Mode::Elide, ops);
+            g.weights.remove = 12;
+            g
+        }
         "C14" if variant % 4 == 3 => {
             let mut g = GenCfg::new(Mode::Consume, ops);
             g.weights.consume = 2;
